@@ -86,11 +86,11 @@ def main():
     mp = os.path.join(out, "meta.json")
     if os.path.exists(mp):
         prev = json.load(open(mp))
-        for k in ("suite", "suite_broken", "needs", "what", "note"):
+        for k in ("suite", "suite_broken", "needs", "what", "note", "status"):
             if k in prev and k not in meta:
                 meta[k] = prev[k]
-        pc = prev.get("checks", {})
-        pc.update(meta["checks"])
+        pc = {} if "--fresh" in args else prev.get("checks", {})
+        pc.update(meta.get("checks", {}))
         meta["checks"] = pc
         meta["caught_by"] = sorted(c for c, v in pc.items() if v["exit"] == 1)
     json.dump(meta, open(mp, "w"), indent=1)
